@@ -55,6 +55,7 @@ var mid = _.props.mid;
 var log = bs.log || [];
 if (m && typeof m === "object") {
   log.push(LOGENTRY);
+  if (m.nan && m.nan[mid]) { return {"log": log, "bad": 0/0}; }
   var emits = (m.emit && m.emit[mid]) || [];
   var failAfter = (m.fail && m.fail[mid] !== undefined) ? m.fail[mid] : -1;
   for (var i = 0; i < emits.length; i++) {
@@ -276,7 +277,10 @@ type vfModel struct {
 // breadth-first), and may or may not exist yet for other messages of depth d
 // (the order within a round is unspecified).  Late machines are never told to
 // emit, so the message tree itself does not depend on that order.
-func vfPredict(msg map[string]interface{}, present map[string]bool, recorders map[string]bool) *vfModel {
+func vfPredict(msg map[string]interface{}, present map[string]bool, recorders map[string]bool, poison ...map[string]bool) *vfModel {
+	// poison (optional, updated): machines whose bindings hold a value that cannot be
+	// encoded; every later action of such a machine fails before it runs.
+	var poisoned map[string]bool
 	md := &vfModel{seen: map[string][]string{}, optional: map[string]map[string]bool{}, depth: map[string]int{}, spawned: map[string]int{}}
 	type item struct {
 		m interface{}
@@ -286,6 +290,12 @@ func vfPredict(msg map[string]interface{}, present map[string]bool, recorders ma
 		md.seen = map[string][]string{}
 		md.batches = nil
 		md.count = 0
+		poisoned = map[string]bool{}
+		if len(poison) > 0 {
+			for k := range poison[0] {
+				poisoned[k] = true
+			}
+		}
 		queue := []item{{msg, 0}}
 		for len(queue) > 0 {
 			it := queue[0]
@@ -341,10 +351,14 @@ func vfPredict(msg map[string]interface{}, present map[string]bool, recorders ma
 						failAfter = int(f)
 					}
 				}
-				if failAfter >= 0 {
+				if failAfter >= 0 || poisoned[mid] {
 					continue // a failing action emits nothing (and records nothing: its bindings are discarded)
 				}
 				md.seen[mid] = append(md.seen[mid], id)
+				if nm, ok := mm["nan"].(map[string]interface{}); ok && nm[mid] == true {
+					poisoned[mid] = true
+					continue // records the message, then returns an unencodable state without emitting
+				}
 				if len(emits) > 0 {
 					md.batches = append(md.batches, ref.Canon(emits))
 					for _, e := range emits {
@@ -376,6 +390,11 @@ func vfPredict(msg map[string]interface{}, present map[string]bool, recorders ma
 		recorders[name] = true
 	}
 	sort.Strings(md.batches)
+	if len(poison) > 0 {
+		for k := range poisoned {
+			poison[0][k] = true
+		}
+	}
 	return md
 }
 
